@@ -8,17 +8,16 @@
 From Coq Require Import ZArith List Bool.
 Import ListNotations.
 From GV Require Import Common.Wire.
+From GV Require Export C19.ExportSem.
+From GV Require Import gen.Gen_exporters.
 Open Scope Z_scope.
 
 Record column := mkC { c_name : Z; c_kind : Z; c_derived : bool; c_vals : list Z }.
 (* what ends up in the file for one component *)
 Definition wcol : Type := (Z * Z * list Z)%type.
 
-Definition KFLOAT : Z := 0.
-Definition KINT : Z := 1.
-Definition KSTR : Z := 2.
-Definition NAN : Z := 2 ^ 80.
-Definition EMPTY : Z := 0.
+(* KFLOAT KINT KSTR NAN EMPTY, select (values[mask]) and mask_fill (values[~mask] = fill) live in C19/ExportSem.v, shared with
+   the translated exporters (coq/gen/Gen_exporters.v) *)
 
 (* data.main_components + data.derived_components *)
 Definition ordered (cols : list column) : list column :=
@@ -27,20 +26,6 @@ Definition ordered (cols : list column) : list column :=
 (* gridded FITS writes numerical components only *)
 Definition exportable (fmt : Z) (c : column) : bool :=
   if fmt =? 4 then (c_kind c =? KFLOAT) || (c_kind c =? KINT) else true.
-
-(* values[mask] *)
-Fixpoint select (mask : list bool) (vals : list Z) : list Z :=
-  match mask, vals with
-  | b :: m, v :: t => if b then v :: select m t else select m t
-  | _, _ => []
-  end.
-
-(* values[~mask] = fill *)
-Fixpoint mask_fill (fill : Z) (mask : list bool) (vals : list Z) : list Z :=
-  match mask, vals with
-  | b :: m, v :: t => (if b then v else fill) :: mask_fill fill m t
-  | _, _ => []
-  end.
 
 (* rows are filtered by the table exporters always (values[mask]) and by the HDF5 exporter for 1-d data;
    n-d HDF5 data and every gridded FITS image keep their shape and get the masked-out pixels replaced *)
@@ -92,6 +77,23 @@ Definition dec_col (t : tree) : column :=
 Definition enc_wcol (w : wcol) : tree :=
   match w with (n, k, vs) => T 0 [leaf n; leaf k; zs vs] end.
 
+(* ---- the TRANSLATED exporters (Gen_exporters) on the wire: tag 2 ---- *)
+Definition dec_dcol (t : tree) : dcol :=
+  mkD (tag (kid 0 t)) (tag (kid 1 t)) (tag (kid 2 t)) (tag (kid 3 t)) (negb (tag (kid 4 t) =? 0))
+      (map to_zs (kids (kid 6 t))) (link_fn (tag (kid 5 t))).
+Fixpoint lookup_enc (tbl : list (Z * Z)) (z : Z) : Z :=
+  match tbl with [] => z | (a, b) :: r => if a =? z then b else lookup_enc r z end.
+Definition enc_oz (o : option Z) : tree := match o with None => T 0 [] | Some z => T 1 [leaf z] end.
+Definition enc_wds (w : wds) : tree :=
+  match w with (n, a) => T 0 [leaf n; leaf (a_kind a); leaf (a_ndim a); zs (a_vals a); T 0 []; T 0 []] end.
+Definition enc_whdu (w : whdu) : tree :=
+  match w with (n, a, h) => T 0 [leaf n; leaf (a_kind a); leaf (a_ndim a); zs (a_vals a); enc_oz (h_blank h); enc_oz (h_bunit h)] end.
+(* the three translated functions behind the five formats *)
+Definition gen_export_tree (fmt : Z) (enc : Z -> Z) (sub : option (list bool)) (data : dset) (comps : option (list Z)) : tree :=
+  if fmt <? 3 then match data_to_astropy_table enc sub data comps with Some l => T 0 (map enc_wds l) | None => err (-3) end
+  else if fmt =? 3 then match hdf5_writer enc sub data comps with Some l => T 0 (map enc_wds l) | None => err (-3) end
+  else match fits_writer enc sub data comps with Some l => T 0 (map enc_whdu l) | None => err (-3) end.
+
 Definition run_case (t : tree) : tree :=
   match t with
   | T 1 [T fmt _; T ndim _; m; T blank _; T _ cols] =>
@@ -99,5 +101,10 @@ Definition run_case (t : tree) : tree :=
       let cs := map dec_col cols in
       T 0 [ T 0 (map enc_wcol (export fmt ndim om blank cs));
             bools (map (writes_blank fmt om) (filter (exportable fmt) (ordered cs))) ]
+  | T 2 [T fmt _; T ndim _; m; comps; T _ cols; T _ tbl; T isdata _] =>
+      let om := match m with T 0 _ => None | T _ l => Some (map (fun k => negb (tag k =? 0)) l) end in
+      let oc := match comps with T 0 _ => None | T _ l => Some (map tag l) end in
+      let enc := lookup_enc (map (fun p => (tag (kid 0 p), tag (kid 1 p))) tbl) in
+      gen_export_tree fmt enc om (mkDS ndim (negb (isdata =? 0)) false (map dec_dcol cols)) oc
   | _ => err (-2)
   end.
